@@ -48,6 +48,18 @@ NEG = [("MCWire_neg1.cfg", "NodeAlive"), ("MCWire_neg5.cfg", "NodeAlive"), ("MCW
        ("MCWire_rx_neg.cfg", "NoDeadlock")]
 
 
+def judge(ctx, files, what, timeout=1500):
+    """Trace validation - after making sure that every step was observed at quiescence: a step that ended at the cap of the wait
+    (the node still running after WIRE_LIMIT_MS without allocating much) cannot be judged and must not become a verdict."""
+    for f in files:
+        for ln in open(f):
+            if '"stop":"cap"' in ln:
+                e = json.loads(ln)
+                raise Broken("the node was still running %s after the quiescence cap without allocating much: cannot be judged (overloaded machine?): %s"
+                             % (e.get("busy"), json.dumps(e)[:400]))
+    return ctx.validate("TraceWire", "TraceWire.cfg", files, what=what, timeout=timeout)
+
+
 def nontrivial(files):
     """distinct (phase-relevant prefix, class) cases in which the node really consumed attacker bytes."""
     seen, lines, samples = set(), 0, []
@@ -87,7 +99,7 @@ def seq_layer(ctx, cfg, name, shards=32, limit=0):
     files, summ = ctx.replay("wire", graph=dot, shards=shards, maxlen=30, limit=limit, env=env, timeout=1800, name="wire." + name)
     if summ["panics"]:
         raise Broken("harness panicked inside the adapter (%d)" % summ["panics"])
-    ok = ctx.validate("TraceWire", "TraceWire.cfg", files, what="message sequences, %s" % name, timeout=1800)
+    ok = judge(ctx, files, "message sequences, %s" % name, timeout=1800)
     # what the real node went through (vacuity guards: the sequences must really reach the manager's caches)
     st = dict(steps=0, ticks=0, ticks_that_took_blocks_out=0, ticks_that_took_two_or_more_out=0, max_blocks_cached=0, max_confirms_cached=0, valid_blocks_accepted=0,
               peer_dropped=0, distinct_real_states=0)
@@ -132,10 +144,11 @@ def rx_layer(ctx, cfg, name, env):
     want = ("StopReading", "Resume", "ResetConn", "HangUp", "Deadline") + (("StallOut",) if "thorough" in cfg else ())
     if [a for a in r.get("zero_cov", []) if a in want]:
         raise Broken("vacuity: receive-side actions never taken in the design run %s: %s" % (cfg, r["zero_cov"]))
-    files, summ = ctx.replay("wire", graph=dot, shards=16, maxlen=12, env=env, timeout=1500, name="wire." + name)
+    # (32 shards on 16 cores: these replays mostly WAIT - for the node's deadlines, its heartbeat retries - and verdicts do not depend on speed)
+    files, summ = ctx.replay("wire", graph=dot, shards=32, maxlen=12, env=env, timeout=1500, name="wire." + name)
     if summ["panics"]:
         raise Broken("harness panicked inside the adapter (%d)" % summ["panics"])
-    ok = ctx.validate("TraceWire", "TraceWire.cfg", files, what="receive side of the remote, %s" % name, timeout=1500)
+    ok = judge(ctx, files, "receive side of the remote, %s" % name)
     # what the real node went through (vacuity guards: writes of the node must really have been left in flight and must really have failed)
     st = dict(steps=0, steps_with_a_write_in_flight=0, writes_failed=0, deadlines_asked_ms=set(), failed_deadlines_ms=set(), closed_after=dict(), max_wait_ms=0, lock_waiters_behind_a_write=0)
     for f in files:
@@ -189,7 +202,7 @@ def run(ctx):
     files, summ = ctx.replay("wire", graph=dot, shards=16, maxlen=12, env=env, timeout=1500)
     if summ["panics"]:
         raise Broken("harness panicked inside the adapter (%d)" % summ["panics"])
-    ok = ctx.validate("TraceWire", "TraceWire.cfg", files, what="class-sequence tree", timeout=1500)
+    ok = judge(ctx, files, "class-sequence tree")
     allfiles = list(files)
     edges = summ["graph_edges"]
     # the message-sequence layer on top of the classes
@@ -210,18 +223,18 @@ def run(ctx):
         dot2 = ctx.path("wire2.dot")
         ctx.tlc_exhaustive("MCWire", "MCWire_thorough2.cfg", timeout=600, dump=dot2)
         f2, s2 = ctx.replay("wire", graph=dot2, shards=16, maxlen=12, env=env, timeout=1500, name="wire.t2")
-        ok = ctx.validate("TraceWire", "TraceWire.cfg", f2, what="class-sequence tree 2", timeout=1500) and ok
+        ok = judge(ctx, f2, "class-sequence tree 2") and ok
         allfiles += f2
         edges += s2["graph_edges"]
         # the first tree again with other payload bytes and read splits for every class
         e3 = dict(env, VERIF_SEED=str(ctx.seed * 1000 + 7))
         f3, s3 = ctx.replay("wire", graph=dot, shards=16, maxlen=12, env=e3, timeout=1500, name="wire.s2")
-        ok = ctx.validate("TraceWire", "TraceWire.cfg", f3, what="class-sequence tree, other instantiation", timeout=1500) and ok
+        ok = judge(ctx, f3, "class-sequence tree, other instantiation") and ok
         allfiles += f3
         # longer random walks in which every kept class carries on
         sim = ctx.tlc_simulate("MCWire", "MCWire_sim.cfg", num=800, depth=10, prefix="wiresim", timeout=300)
         f4, s4 = ctx.replay("wire", sim=sim, shards=16, env=env, timeout=1500, name="wire.sim")
-        ok = ctx.validate("TraceWire", "TraceWire.cfg", f4, what="simulated longer sequences", timeout=1500) and ok
+        ok = judge(ctx, f4, "simulated longer sequences") and ok
         allfiles += f4
     n, lines, samples, ratio = nontrivial(allfiles)
     ctx.cov["evaluations"] = lines
@@ -255,6 +268,7 @@ def run(ctx):
         "receive-side layer: net.Pipe has no buffer, so a remote that stops reading blocks the node's very next write - the state of a TCP connection whose send buffer is full; a remote that stops reading before the node has answered the encryption handshake of an ACCEPTED connection is not enumerated (that one write has no deadline; on TCP a packet below 1 KiB on a fresh connection never blocks), resetting and hanging up at that point are",
         "receive-side layer: a reset of the node's sending direction is injected at the node's end of the pipe (every write fails at once with ECONNRESET, reads go on); a hang-up closes both directions",
         "receive-side layer: bounded time = the deadline the node gave its write (divided by 20 while the remote does not read) plus a grace period of 4 s that only matters in the failing case; lock waiters are judged where no write of the node is in flight (behind a write in flight they may queue for the peer's write lock until its deadline)",
+        "receive-side layer: input the node has read but not handled yet is not held against the step that is observed: the frame reader queues decoded messages (a channel of 10) for the one goroutine that handles them, and while that goroutine is inside a write the remote does not take (the protocol handshake of a dialed connection) 'nothing can run' is reached with messages still queued; the blocks / confirm packets sent since the last observation with nothing in flight and nothing able to run are credited to the envelope of the later steps (TraceWire: back)",
         "receive-side layer: 'a failed write drops the connection' is demanded only through its consequences (nothing in flight, nobody waiting, malformed input closed, hang-up / stall-out closed, peer forgotten, bystander served); after a passed deadline the connection may be closed or kept",
         "the protocol manager's unexported caches are read hook-free through reflect/unsafe and their own exported, locking accessors (Iterate with a callback that removes nothing, Size)",
     ]
